@@ -102,14 +102,35 @@ Section ExecEqs.
 End ExecEqs.
 
 (* ------------------------------------------------------------------ *)
-(* result keys *)
-Lemma result_keys_app a b : result_keys (a ++ b) = fold_left add_key b (result_keys a).
-Proof. unfold result_keys. apply fold_left_app. Qed.
+(* result entries *)
+Lemma result_entries_app a b : result_entries (a ++ b) = fold_left add_entry b (result_entries a).
+Proof. unfold result_entries. apply fold_left_app. Qed.
 
 Lemma add_result_some loc names errs stop segs m st r :
   add_result (mkSt loc names errs stop segs (Some m) st) r =
-  mkSt loc names errs stop segs (Some (add_key m r)) st.
-Proof. unfold add_result, add_key. destruct (eret r); reflexivity. Qed.
+  mkSt loc names errs stop segs (Some (add_entry m r)) st.
+Proof. unfold add_result, add_entry. destruct (eret r); reflexivity. Qed.
+
+(* the keys of the entries evolve as the old key-only model did *)
+Lemma set_entry_keys m n v :
+  map fst (set_entry m n v) = if existsb (String.eqb n) (map fst m) then map fst m else map fst m ++ [n].
+Proof.
+  induction m as [|[k w] m IH]; [reflexivity|]. cbn [set_entry map fst existsb].
+  rewrite (String.eqb_sym n k). destruct (String.eqb k n); cbn [orb map fst]; [reflexivity|].
+  rewrite IH. destruct (existsb _ _); reflexivity.
+Qed.
+
+Lemma add_entry_keys m r : map fst (add_entry m r) = add_key (map fst m) r.
+Proof. unfold add_entry, add_key. destruct (eret r); [apply set_entry_keys | reflexivity]. Qed.
+
+Lemma fold_add_entry_keys l : forall m, map fst (fold_left add_entry l m) = fold_left add_key l (map fst m).
+Proof.
+  induction l as [|r l IH]; intro m; [reflexivity|].
+  cbn [fold_left]. now rewrite IH, add_entry_keys.
+Qed.
+
+Lemma result_keys_fold l : result_keys l = fold_left add_key l [].
+Proof. unfold result_keys, result_entries. apply fold_add_entry_keys. Qed.
 
 (* the effective continue-on-error flag of a policy *)
 Definition eff (p : pol) (b : bool) : bool :=
@@ -120,7 +141,7 @@ Lemma seq_run_char b p tag l : p <> ReturnAlways ->
   seq_run b p tag l (mkSt loc names errs stop segs (Some m) Running) =
   let pre := sort_prefix (eff p b) tag stop l in
   (pre, mkSt loc names (errs || (eff p b && any_fail pre)) (stop || existsb estop pre) segs
-             (Some (fold_left add_key pre m))
+             (Some (fold_left add_entry pre m))
              (if (negb (eff p b) && any_fail pre)%bool then RetErr else Running)).
 Proof.
   intros Hp. induction l as [|r l IH]; intros loc names errs stop segs m.
@@ -137,7 +158,7 @@ Qed.
 
 Lemma fold_add_result_some l : forall loc names errs stop segs m st,
   fold_left add_result l (mkSt loc names errs stop segs (Some m) st) =
-  mkSt loc names errs stop segs (Some (fold_left add_key l m)) st.
+  mkSt loc names errs stop segs (Some (fold_left add_entry l m)) st.
 Proof.
   induction l as [|r l IH]; intros; [reflexivity|].
   cbn [fold_left]. rewrite add_result_some. apply IH.
@@ -145,7 +166,7 @@ Qed.
 
 Lemma par_run_char l loc names errs stop segs m st :
   par_run l (mkSt loc names errs stop segs (Some m) st) =
-  mkSt loc names (errs || any_fail l) (stop || existsb estop l) segs (Some (fold_left add_key l m)) st.
+  mkSt loc names (errs || any_fail l) (stop || existsb estop l) segs (Some (fold_left add_entry l m)) st.
 Proof. unfold par_run. rewrite fold_add_result_some. reflexivity. Qed.
 
 (* ------------------------------------------------------------------ *)
@@ -165,15 +186,15 @@ Qed.
 Lemma seq_tail_ne ran : match ran with [] => [] | _ => [Seq ran] end = ne [Seq ran].
 Proof. destruct ran; reflexivity. Qed.
 Lemma rk_seq segs l :
-  fold_left add_key l (result_keys (executed segs)) = result_keys (executed (segs ++ ne [Seq l])).
-Proof. rewrite executed_app, executed_ne, result_keys_app. cbn. now rewrite app_nil_r. Qed.
+  fold_left add_entry l (result_entries (executed segs)) = result_entries (executed (segs ++ ne [Seq l])).
+Proof. rewrite executed_app, executed_ne, result_entries_app. cbn. now rewrite app_nil_r. Qed.
 Lemma rk_par segs l :
-  fold_left add_key l (result_keys (executed segs)) = result_keys (executed (segs ++ ne [Par l])).
-Proof. rewrite executed_app, executed_ne, result_keys_app. cbn. now rewrite app_nil_r. Qed.
+  fold_left add_entry l (result_entries (executed segs)) = result_entries (executed (segs ++ ne [Par l])).
+Proof. rewrite executed_app, executed_ne, result_entries_app. cbn. now rewrite app_nil_r. Qed.
 
 (* ------------------------------------------------------------------ *)
-(* canonical states: the result map holds exactly the keys of the executed stages *)
-Notation rk segs := (Some (result_keys (executed segs))).
+(* canonical states: the result map holds exactly the entries of the executed stages *)
+Notation rk segs := (Some (result_entries (executed segs))).
 
 Definition bl (c : cfg) (b : base) (loc : list erule) : list erule :=
   match b with BLocal => loc | _ => c_rules c end.
@@ -514,7 +535,7 @@ Qed.
 
 Lemma removelast_zlen (l : list erule) : l <> [] -> (zlen l - 1 = zlen (removelast l))%Z.
 Proof.
-  intros H. pose proof (app_removelast_last (mkER "" 0 false false false) H) as E.
+  intros H. pose proof (app_removelast_last (mkER "" 0 false false false None) H) as E.
   apply (f_equal (@length _)) in E. rewrite app_length in E. cbn [length] in E. unfold zlen. lia.
 Qed.
 
@@ -808,7 +829,7 @@ Proof.
 Qed.
 
 (* the outcome does not depend on what the previous call left in the result map *)
-Definition with_prev (c : cfg) (p : option (list string)) : cfg :=
+Definition with_prev (c : cfg) (p : option rmap) : cfg :=
   mkCfg (c_rules c) (c_b c) (c_n c) (c_m c) (c_names c) (c_layers c) (c_stop0 c) p.
 
 Lemma dag_stage_prev c p layers : dag_stage (with_prev c p) layers = dag_stage c layers.
@@ -841,12 +862,18 @@ Corollary hand_no_stale_err : forall e c p,
   o_err (run_prog (hand e) c).
 Proof. intros e c p. exact (f_equal o_err (hand_prev_irrelevant e c p)). Qed.
 
-(* the result map is never nil after a call, and holds exactly the keys of the executed rules *)
+(* the result map is never nil after a call, and holds exactly the entries of the executed rules *)
 Corollary hand_map : forall e c,
-  o_map (run_prog (hand e) c) = Some (result_keys (executed (o_segs (run_prog (hand e) c)))).
+  o_map (run_prog (hand e) c) = Some (result_entries (executed (o_segs (run_prog (hand e) c)))).
 Proof.
   intros e c. rewrite hand_sound. unfold spec_outcome. destruct (spec e c); reflexivity.
 Qed.
+
+(* the key-level reading of [hand_map] (its statement before the map carried values) *)
+Corollary hand_map_keys : forall e c,
+  option_map (map fst) (o_map (run_prog (hand e) c)) =
+  Some (result_keys (executed (o_segs (run_prog (hand e) c)))).
+Proof. intros e c. now rewrite hand_map. Qed.
 
 Print Assumptions hand_sound.
 Print Assumptions hand_no_stale.
